@@ -262,3 +262,99 @@ def mutable_ids(o, _acc=None):
             for v in d.values():
                 mutable_ids(v, _acc)
     return _acc
+
+
+# ---------------------------------------------------------------- plain-data views
+
+
+def to_data(r):
+    """picklable plain-data view of an answer (crosses a process boundary for the
+    forked cold replays); compared with same_data()"""
+    if isinstance(r, Raised):
+        return ("!", r.cls)
+    if r is None or isinstance(r, (bool, str)):
+        return ("v", r)
+    if isinstance(r, (int, float)):
+        return ("n", float(r)) if abs(r) < 1e300 else ("v", repr(r))
+    n = type(r).__name__
+    try:
+        if n in ("Point", "Vector"):
+            return (n, _pt(r))
+        if n == "Segment":
+            return (n, _pt(r.start_point), _pt(r.end_point))
+        if n == "HalfLine":
+            return (n, _pt(r.point), _pt(r.vector))
+        if n == "Line":
+            return (n, _pt(r.sv), _pt(r.dv))
+        if n == "Plane":
+            return (n, _pt(r.p), _pt(r.n))
+        if n == "ConvexPolygon":
+            return (n, [_pt(p) for p in r.points])
+        if n == "ConvexPolyhedron":
+            return (n, sorted(_pt(p) for p in r.point_set), len(r.convex_polygons))
+    except Exception as e:  # an unreadable result is an outcome of its own
+        return ("?", n, type(e).__name__)
+    if isinstance(r, (tuple, list)):
+        return ("t", [to_data(x) for x in r])
+    return ("v", repr(r))
+
+
+def same_data(a, b, angle=False):
+    """same() on plain-data views"""
+    if a[0] != b[0]:
+        return False
+    k = a[0]
+    if k in ("!", "v", "?"):
+        return a == b
+    if k == "n":
+        x, y = a[1], b[1]
+        if math.isnan(x) or math.isnan(y):
+            return math.isnan(x) and math.isnan(y)
+        return abs(x - y) <= (ANG if angle else REL * max(1.0, abs(x), abs(y)))
+    if k in ("Point", "Vector"):
+        return _pclose(a[1], b[1])
+    if k == "Segment":
+        return (_pclose(a[1], b[1]) and _pclose(a[2], b[2])) or (_pclose(a[1], b[2]) and _pclose(a[2], b[1]))
+    if k == "HalfLine":
+        ua, ub = _unit(a[2]), _unit(b[2])
+        return _pclose(a[1], b[1]) and ua is not None and ub is not None and _pclose(ua, ub)
+    if k == "Line":
+        ua, ub = _unit(a[2]), _unit(b[2])
+        if ua is None or ub is None:
+            return False
+        if not (_pclose(ua, ub) or _pclose(ua, tuple(-x for x in ub))):
+            return False
+        return _pclose(_foot(a[1], ua), _foot(b[1], ub))
+    if k == "Plane":
+        ua, ub = _unit(a[2]), _unit(b[2])
+        if ua is None or ub is None:
+            return False
+        da = sum(x * y for x, y in zip(ua, a[1]))
+        db = sum(x * y for x, y in zip(ub, b[1]))
+        if _pclose(ua, ub):
+            return _close(da, db)
+        if _pclose(ua, tuple(-x for x in ub)):
+            return _close(da, -db)
+        return False
+    if k == "ConvexPolygon":
+        return _match_sets(a[1], b[1])
+    if k == "ConvexPolyhedron":
+        return a[2] == b[2] and _match_sets(a[1], b[1])
+    if k == "t":
+        return len(a[1]) == len(b[1]) and all(same_data(x, y) for x, y in zip(a[1], b[1]))
+    return a == b
+
+
+def disc_data(d):
+    k = d[0]
+    if k == "!":
+        return "!" + d[1]
+    if k == "v":
+        return "None" if d[1] is None else ("T" if d[1] is True else ("F" if d[1] is False else "str"))
+    if k == "n":
+        return "num"
+    if k == "ConvexPolygon":
+        return "ConvexPolygon/%d" % len(d[1])
+    if k == "ConvexPolyhedron":
+        return "ConvexPolyhedron/%d/%d" % (len(d[1]), d[2])
+    return k
